@@ -73,7 +73,7 @@ def inject(chunks, pos, fault, rng):
 class Check(DiffCheck):
     id = 'C10'
     coq_dirs = ['Base', 'C10']
-    coq_targets = ['C10/C10_ProofsTop.vo', 'C10/C10_ProofsRearm.vo']
+    coq_targets = ['C10/C10_Proofs.vo', 'C10/C10_ProofsLoop.vo', 'C10/C10_ProofsTop.vo', 'C10/C10_ProofsEngine.vo', 'C10/C10_ProofsRearm.vo']
     properties_v = 'C10/C10_Properties.v'
     extract_v = 'C10/C10_Extract.v'
     runner_ml = 'ocaml/C10_run.ml'
